@@ -71,6 +71,7 @@ func (pj *internalParsedJson) findStructuralIndices() bool {
 		index := indexChan{}
 		offset := atomic.AddUint64(&pj.buffersOffset, 1)
 		index.indexes = &pj.buffers[offset%indexSlots]
+		verifEv(pj, "Acquire", int(offset), int(offset%indexSlots), cap(pj.indexChans))
 
 		// In case last index during previous round was stripped back, put it back
 		if stripped_index != ^uint64(0) {
@@ -114,6 +115,7 @@ func (pj *internalParsedJson) findStructuralIndices() bool {
 
 		if index.length == 0 { // No structural chars found, so error out
 			error_mask = ^uint64(0)
+			verifEv(pj, "Stage1Abort", int(offset), 0, 0)
 			break
 		}
 
@@ -125,6 +127,7 @@ func (pj *internalParsedJson) findStructuralIndices() bool {
 				position >= uint64(len(buf)) ||
 				!(buf[position] == '}' || buf[position] == ']') {
 				error_mask = ^uint64(0)
+				verifEv(pj, "Stage1Abort", int(offset), 1, 0)
 				break
 			}
 		} else if !jsonMarkup(buf[position]) {
@@ -135,13 +138,17 @@ func (pj *internalParsedJson) findStructuralIndices() bool {
 			index.length -= 1
 		}
 
+		verifIdx(pj, "PreSend", &index, int(offset))
 		pj.indexChans <- index
+		verifEv(pj, "Sent", int(offset), index.length, 0)
 		indexTotal += index.length
 
 		buf = buf[processed:]
 		position -= processed
 	}
+	verifEv(pj, "PreSendTerm", 0, 0, 0)
 	pj.indexChans <- indexChan{index: -1}
+	verifEv(pj, "SentTerm", 0, 0, 0)
 
 	// a valid JSON file cannot have zero structural indexes - we should have found something
 	return error_mask == 0 && indexTotal > 0
